@@ -52,7 +52,7 @@ LPREFIX = "execution_history"
 READ_CMDS = ("EXISTS", "SCAN", "HGET", "HKEYS", "HLEN", "HGETALL", "HEXISTS", "LRANGE", "LLEN", "LINDEX")
 
 # operation kinds
-SET, NEST, DEL, REOPEN, CGET, DELIVER, SETI, APPEND, TTL, NOP = "set", "nested", "del", "reopen", "cget", "deliver", "seti", "append", "set_ttl", "nop"
+SET, NEST, DEL, REOPEN, CGET, DELIVER, SETI, APPEND, TTL, UPD, NOP = "set", "nested", "del", "reopen", "cget", "deliver", "seti", "append", "set_ttl", "update", "nop"
 
 
 # ---------------------------------------------------------------------------
@@ -179,13 +179,15 @@ def run_plain(kind, steps):
             k = KEYS[alt[1]]
             s[k] = copy.deepcopy(DVALS[alt[2]])
             model[k] = copy.deepcopy(DVALS[alt[2]])
-        elif op == NEST:
+        elif op == NEST or op == UPD:
             k = KEYS[alt[1]]
             view = s.get(k)
             if (view is None) != (k not in model): return "%s: get(%s) presence" % (where, k)
             if view is not None:
                 view["n"] = 100 + idx
                 model[k]["n"] = 100 + idx
+                if op == UPD:            # what aws_api_UpdateStateMachine does: get, mutate, re-assign
+                    s[k] = view
         elif op == DEL:
             k = KEYS[alt[1]]
             try:
@@ -237,6 +239,16 @@ def run_redis_map(kind, ninst, steps, stepvals=False):
             k = KEYS[alt[2]]
             s.get(k).append({"e": idx})
             model.setdefault(k, []).append({"e": idx})
+        elif op == UPD:                  # get, mutate, re-assign the same view (aws_api_UpdateStateMachine)
+            k = KEYS[alt[2]]
+            view = s.get(k)
+            if kind == "dict":
+                view["n"] = 100 + idx
+                model.setdefault(k, {})["n"] = 100 + idx
+            else:
+                view.append({"e": idx})
+                model.setdefault(k, []).append({"e": idx})
+            s[k] = view
         elif op == DEL:
             k = KEYS[alt[2]]
             try:
@@ -460,6 +472,12 @@ def run_cache_disabled(mode, steps):
 # ---------------------------------------------------------------------------
 T_JSON = [(SET, 0, 0), (SET, 0, 1), (SET, 1, 0), (SET, 1, 1), (NEST, 0), (NEST, 1), (DEL, 0), (DEL, 1), (REOPEN,)]
 T_SIMPLE = T_JSON[:-1]
+T_JSON_UPD = [(SET, 0, 0), (SET, 1, 1), (UPD, 0), (UPD, 1), (NEST, 0), (DEL, 0), (REOPEN,)]
+
+
+def _t_redis_upd(kind):
+    upd = NEST if kind == "dict" else APPEND
+    return [(SET, 0, 0, 0), (SET, 0, 1, 1), (UPD, 0, 0), (UPD, 0, 1), (upd, 0, 0), (DEL, 0, 0), (REOPEN, 0)]
 
 
 def _t_redis1(kind, nvals):
@@ -547,6 +565,8 @@ def json_nested_lost(name, c1, c2, c3, c4, c5):
             present[alt[1]] = False; dirty[alt[1]] = False
         elif op == NEST:
             if present[alt[1]]: dirty[alt[1]] = True
+        elif op == UPD:
+            dirty[alt[1]] = False
         elif op == REOPEN:
             if dirty[0] or dirty[1]: return True
     return False
@@ -622,26 +642,32 @@ seq_family("json_seq", T_JSON, lambda s: run_plain("json", s), 4, 5, 3,
            outside=["JSONStore: a nested update made through a returned view that is never followed by re-assignment/deletion of the key, then a re-open (only __setitem__/__delitem__ write the file; the REST API always re-assigns after mutating - aws_api_UpdateStateMachine). The same-instance read-back of such an update IS checked",
                     "two live JSONStore objects over one file (documented as a single-instance store)"],
            extra=["not json_nested_lost($NAME, c1, c2, c3, c4, c5)"])
-seq_family("simple_seq", T_SIMPLE, lambda s: run_plain("simple", s), 4, 5, 2,
+seq_family("json_seq_api_update", T_JSON_UPD, lambda s: run_plain("json", s), 4, 5, 1,
+           ["JSONStore.__setitem__ with the (mutated) object returned by get() - the get/mutate/re-assign pattern of aws_api_UpdateStateMachine", "JSONStore._update_store"],
+           extra=["not json_nested_lost($NAME, c1, c2, c3, c4, c5)"])
+seq_family("simple_seq", T_SIMPLE, lambda s: run_plain("simple", s), 3, 4, 1,
            ["SimpleStore (dict subclass) mapping operations, set_ttl, get_cached_view", "create_executions_store (non-redis URL)"])
 for _kind, _nm in (("dict", "rdict"), ("list", "rlist")):
     _cls = "RedisDictStore" if _kind == "dict" else "RedisListStore"
     _fns = [_cls + ".__getitem__/__setitem__", "RedisStore.__init__/get_connection/__delitem__/__len__/__iter__/__contains__/_remove_prefix",
             "create_ASL_store / create_history_store (redis URL)"]
-    seq_family(_nm + "_seq", _t_redis1(_kind, 2), lambda s, k=_kind: run_redis_map(k, 1, s), 4, 5, 3, _fns, outside=_O_REDIS)
-    seq_family(_nm + "_seq_emptyvals_ttl", _t_redis1(_kind, 3), lambda s, k=_kind: run_redis_map(k, 1, s), 3, 4, 1, _fns + ["RedisStore.set_ttl"],
+    _nt = 5 if _kind == "dict" else 4     # the list store shares every RedisStore method with the dict store: one step shallower in the thorough tier
+    seq_family(_nm + "_seq", _t_redis1(_kind, 2), lambda s, k=_kind: run_redis_map(k, 1, s), 4, _nt, 3, _fns, outside=_O_REDIS)
+    seq_family(_nm + "_seq_api_update", _t_redis_upd(_kind), lambda s, k=_kind: run_redis_map(k, 1, s), 4, _nt, 1,
+               [_cls + ".__setitem__ with the view returned by get() (same key: no-op, the view already wrote through)"])
+    seq_family(_nm + "_seq_emptyvals_ttl", _t_redis1(_kind, 3), lambda s, k=_kind: run_redis_map(k, 1, s), 3, _nt - 1, 1, _fns + ["RedisStore.set_ttl"],
                outside=["Redis-backed stores: an empty dict/list value is indistinguishable from an absent key (documented Redis limitation); the oracle follows that, it does not demand `k in store` after `store[k] = {}`"])
-    seq_family(_nm + "_seq_two_instances", _t_redis2(_kind), lambda s, k=_kind: run_redis_map(k, 2, s), 3, 4, 2, _fns, outside=_O_REDIS)
+    seq_family(_nm + "_seq_two_instances", _t_redis2(_kind), lambda s, k=_kind: run_redis_map(k, 2, s), 3, _nt - 1, 2, _fns, outside=_O_REDIS)
 
 # (3) cache coherence -----------------------------------------------------------
 _C_FNS = ["RedisStore.get_cached_view", "RedisStore._write_to_cache", "RedisStore._start_tracking", "RedisStore._cache_invalidation_handler", "RedisStore._remove_prefix"]
 seq_family("rdict_cache_self", _t_cache("dict"), lambda s: run_cache("dict", False, s), 4, 5, 3, _C_FNS, outside=_O_REDIS)
-seq_family("rdict_cache_other_writer", _t_cache("dict"), lambda s: run_cache("dict", True, s), 4, 5, 3, _C_FNS, outside=_O_REDIS)
+seq_family("rdict_cache_other_writer", _t_cache("dict"), lambda s: run_cache("dict", True, s), 4, 4, 3, _C_FNS, outside=_O_REDIS)
 seq_family("rlist_cache_self", _t_cache("list"), lambda s: run_cache("list", False, s), 3, 4, 1, _C_FNS)
 seq_family("rlist_cache_other_writer", _t_cache("list"), lambda s: run_cache("list", True, s), 3, 4, 1, _C_FNS)
 seq_family("rdict_cache_two_readers", T_TWO, lambda s: run_cache_two("dict", s), 3, 4, 1, _C_FNS)
 seq_family("rdict_cache_two_readers_restart", T_TWO_R, lambda s: run_cache_two("dict", s), 3, 4, 1, _C_FNS + ["RedisStore.stop"])
-seq_family("rdict_cache_lru_cap1", _t_cache("dict", 3, False), lambda s: run_cache("dict", False, s, 1, KEYS3), 4, 5, 1, _C_FNS)
+seq_family("rdict_cache_lru_cap1", _t_cache("dict", 3, False), lambda s: run_cache("dict", False, s, 1, KEYS3), 4, 4, 1, _C_FNS)
 seq_family("rdict_cache_lru_cap2", _t_cache("dict", 3, False), lambda s: run_cache("dict", False, s, 2, KEYS3), 4, 5, 1, _C_FNS)
 seq_family("rstore_cache_shared_connection", T_SHARED, run_shared_connection, 4, 5, 1, _C_FNS + ["RedisStore.get_connection (class-level connection)"])
 seq_family("rdict_cache_disabled_size0", T_DISABLED, lambda s: run_cache_disabled(0, s), 3, 4, 1, ["RedisStore.get_cached_view (cache_size == 0)"])
